@@ -4,7 +4,7 @@ import N0Verif.Proofs.JsonPairs
 # C11 — JSON export and load round-trip every JSON-representable tree
 
 Only property statements live here; the model is `Model/Json.lean` (`toJson` = `n0dict_.to_json` /
-`n0list_.to_json` through `n0pretty`, **with fix patches C11-a, C11-c, C11-d, C11-f applied**;
+`n0list_.to_json` through `n0pretty`, **with fix patches C11-a, C11-c, C11-d, C11-f, C11-e applied**;
 `jsonDecode` = `json.loads`), helper lemmas are in `Proofs/Json.lean` (reader, general layout)
 and `Proofs/JsonPairs.lean` (pair layout, `pyEq`, `pairOrder`).
 
@@ -21,23 +21,18 @@ Reading of the property.
 * "skip_empty_arrays drops empty containers": `dropEmptyIf o t` = `prune t` when the option is
   on — containers that are empty, or become empty once their own empty containers are dropped,
   are removed from their parent (the root itself stays, as `{}` / `[]`).
+* "for every tree": no bound on width or nesting depth.  (The interpreter's own recursion limit —
+  `RecursionError` from `n0pretty` or `json.loads` near 1000 nested containers — is a limit of the
+  environment, not of the code modelled; it is listed in the trusted base of the check.)
 -/
 namespace N0.C11
 open N0 N0.Py N0.Json
 
-/-- **C11, full statement** (kept visible; it is *false* because of finding C11-e, see
-`C11_roundtrip_stmt_false`; proved below for every option record up to nesting depth 111 —
-`C11_roundtrip_bounded`): for every JSON-representable tree and every option record the
-exported text is accepted by the reader and decodes to the tree (minus empty containers when
-`skip_empty_arrays` is on). -/
+/-- **C11, full statement** (proved below: `C11_roundtrip`): for every JSON-representable tree
+— any width, any nesting depth — and every option record the exported text is accepted by the
+reader and decodes to the tree (minus empty containers when `skip_empty_arrays` is on). -/
 def C11_roundtrip_stmt : Prop :=
   ∀ (o : Opts) (t : Val), wf t = true →
-    ∃ v, jsonDecode (toJson o t) = some v ∧ pyEq v (erase (dropEmptyIf o t)) = true
-
-/-- the full statement restricted to what the code can do (items nested deeper than 111 are
-printed as `{.......}`, finding C11-e): every layout, every option record -/
-def C11_roundtrip_bounded_stmt : Prop :=
-  ∀ (o : Opts) (t : Val), wf t = true → depth t ≤ 111 →
     ∃ v, jsonDecode (toJson o t) = some v ∧ pyEq v (erase (dropEmptyIf o t)) = true
 
 /-- **The reader decodes every JSON text of a value.**  Whatever white space stands between the
@@ -58,13 +53,13 @@ theorem C11_int_roundtrip (i : Int) : jsonDecode (intRepr i) = some (.int i) := 
   simpa [erase] using C11_decode_ren (.int i) (intRepr i) h rfl
 
 /-- **C11 without the pair layout** (`compress`, `indent = 0` or `pairs_in_one_line = False`;
-every indent, both values of `skip_empty_arrays`), for trees nested at most 111 deep:
-the exported text decodes *exactly* to the tree with class tags forgotten and, under
-`skip_empty_arrays`, empty containers dropped. -/
-theorem C11_roundtrip_partial (o : Opts) (hp : o.pairsOn = false) (t : Val)
-    (hw : wf t = true) (hd : depth t ≤ 111) :
+every indent, both values of `skip_empty_arrays`): the exported text decodes *exactly* to the
+tree with class tags forgotten and, under `skip_empty_arrays`, empty containers dropped
+(dict order included). -/
+theorem C11_roundtrip_pairs_off (o : Opts) (hp : o.pairsOn = false) (t : Val)
+    (hw : wf t = true) :
     jsonDecode (toJson o t) = some (erase (dropEmptyIf o t)) := by
-  have hout := pretty_ren o hp t hw 0 (by omega)
+  have hout := pretty_ren o hp t hw 0
   unfold toJson
   rcases hout with ⟨hs, he, hnil⟩ | ⟨_, hr⟩
   · -- everything was dropped: `to_json` answers `{}` / `[]`
@@ -95,67 +90,61 @@ theorem C11_roundtrip_partial (o : Opts) (hp : o.pairsOn = false) (t : Val)
 
 /-- stage 1: the compressed layout -/
 theorem C11_roundtrip_compress (o : Opts) (hc : o.compress = true) (t : Val)
-    (hw : wf t = true) (hd : depth t ≤ 111) :
+    (hw : wf t = true) :
     jsonDecode (toJson o t) = some (erase (dropEmptyIf o t)) :=
-  C11_roundtrip_partial o (by simp [Opts.pairsOn, Opts.isz, hc]) t hw hd
+  C11_roundtrip_pairs_off o (by simp [Opts.pairsOn, Opts.isz, hc]) t hw
 
 /-- stage 2: the indented layout, any indent, `pairs_in_one_line = False` -/
 theorem C11_roundtrip_indented (o : Opts) (hpairs : o.pairs = false) (t : Val)
-    (hw : wf t = true) (hd : depth t ≤ 111) :
+    (hw : wf t = true) :
     jsonDecode (toJson o t) = some (erase (dropEmptyIf o t)) :=
-  C11_roundtrip_partial o (by simp [Opts.pairsOn, hpairs]) t hw hd
-
-/-- the statement form of the proved part: it implies the `pyEq` reading -/
-theorem C11_roundtrip_partial_exists (o : Opts) (hp : o.pairsOn = false) (t : Val)
-    (hw : wf t = true) (hd : depth t ≤ 111) :
-    ∃ v, jsonDecode (toJson o t) = some v ∧ v = erase (dropEmptyIf o t) :=
-  ⟨_, C11_roundtrip_partial o hp t hw hd, rfl⟩
+  C11_roundtrip_pairs_off o (by simp [Opts.pairsOn, hpairs]) t hw
 
 /-- no formatting option (outside the pair layout) changes the decoded value:
 two option records that agree on `skip_empty_arrays` decode to the same value -/
 theorem C11_options_agree (o o' : Opts) (hp : o.pairsOn = false) (hp' : o'.pairsOn = false)
-    (hs : o.skipEmpty = o'.skipEmpty) (t : Val) (hw : wf t = true) (hd : depth t ≤ 111) :
+    (hs : o.skipEmpty = o'.skipEmpty) (t : Val) (hw : wf t = true) :
     jsonDecode (toJson o t) = jsonDecode (toJson o' t) := by
-  rw [C11_roundtrip_partial o hp t hw hd, C11_roundtrip_partial o' hp' t hw hd]
+  rw [C11_roundtrip_pairs_off o hp t hw, C11_roundtrip_pairs_off o' hp' t hw]
   unfold dropEmptyIf
   rw [hs]
 
 /-! ### every layout, the pair layout included (stage 3) -/
 
-/-- **C11 for every option record, exact form** (`_partial`: depth ≤ 111, finding C11-e):
-the exported text decodes *exactly* to the tree whose pair-layout records are listed in column
-order (`pairOrder o t`: nothing else differs from `t`), with class tags forgotten and, under
-`skip_empty_arrays`, empty containers dropped.  Covers compress, every indent,
-`pairs_in_one_line` on and off, both values of `skip_empty_arrays`. -/
-theorem C11_roundtrip_ordered_partial (o : Opts) (t : Val) (hw : wf t = true) (hd : depth t ≤ 111) :
+/-- **C11 for every option record, exact form**: the exported text decodes *exactly* to the tree
+whose pair-layout records are listed in column order (`pairOrder o t`: nothing else differs from
+`t`), with class tags forgotten and, under `skip_empty_arrays`, empty containers dropped.  Covers
+compress, every indent, `pairs_in_one_line` on and off, both values of `skip_empty_arrays`, any
+nesting depth. -/
+theorem C11_roundtrip_ordered (o : Opts) (t : Val) (hw : wf t = true) :
     jsonDecode (toJson o t) = some (erase (dropEmptyIf o (pairOrder o t))) :=
-  jsonDecode_toJson o t hw hd
+  jsonDecode_toJson o t hw
 
-/-- **C11, the full statement up to depth 111**: whatever the options, the exported text is
-accepted by `json.loads` and the decoded value equals the tree (minus the empty containers when
-`skip_empty_arrays` is on) as Python compares values. -/
-theorem C11_roundtrip_bounded : C11_roundtrip_bounded_stmt := by
-  intro o t hw hd
-  exact ⟨_, jsonDecode_toJson o t hw hd, pairOrder_pyEq o t hw⟩
+/-- **C11, the full statement**: whatever the options and however deep the tree, the exported
+text is accepted by `json.loads` and the decoded value equals the tree (minus the empty
+containers when `skip_empty_arrays` is on) as Python compares values. -/
+theorem C11_roundtrip : C11_roundtrip_stmt := by
+  intro o t hw
+  exact ⟨_, jsonDecode_toJson o t hw, pairOrder_pyEq o t hw⟩
 
 /-- no formatting option changes the decoded value, the pair layout included: two option records
 that agree on `skip_empty_arrays` both decode to values equal (as Python compares) to the same tree -/
 theorem C11_options_agree_all (o o' : Opts) (hs : o.skipEmpty = o'.skipEmpty) (t : Val)
-    (hw : wf t = true) (hd : depth t ≤ 111) :
+    (hw : wf t = true) :
     ∃ v v', jsonDecode (toJson o t) = some v ∧ jsonDecode (toJson o' t) = some v' ∧
       pyEq v (erase (dropEmptyIf o t)) = true ∧ pyEq v' (erase (dropEmptyIf o t)) = true := by
-  obtain ⟨v, h1, h2⟩ := C11_roundtrip_bounded o t hw hd
-  obtain ⟨v', h1', h2'⟩ := C11_roundtrip_bounded o' t hw hd
+  obtain ⟨v, h1, h2⟩ := C11_roundtrip o t hw
+  obtain ⟨v', h1', h2'⟩ := C11_roundtrip o' t hw
   refine ⟨v, v', h1, h1', h2, ?_⟩
   have : dropEmptyIf o t = dropEmptyIf o' t := by unfold dropEmptyIf; rw [hs]
   rw [this]; exact h2'
 
 /-- exact equality (dict order included) in every layout when the records of the lists printed
 in the pair layout already list their keys in column order (first appearance) -/
-theorem C11_roundtrip_colorder_partial (o : Opts) (t : Val) (hw : wf t = true) (hd : depth t ≤ 111)
+theorem C11_roundtrip_colorder (o : Opts) (t : Val) (hw : wf t = true)
     (hc : pairOrder o t = t) :
     jsonDecode (toJson o t) = some (erase (dropEmptyIf o t)) := by
-  rw [jsonDecode_toJson o t hw hd, hc]
+  rw [jsonDecode_toJson o t hw, hc]
 
 /-- the column-ordered tree is the tree as Python compares values (also after
 `skip_empty_arrays`), and it is the tree itself when the pair layout is off -/
@@ -171,32 +160,27 @@ theorem C11_pair_record (c : Cls) (cols : List (Str × Nat)) (kvs : List (Str ×
     Ren (.dict c (colOrder cols kvs)) (['{'] ++ pairRecord kvs cols [] ++ [' ', '}']) :=
   pairRecord_ren c cols kvs (fun p hp => scalar_ren (hs p hp) (wfK_mem kvs hw p hp))
 
-/-! ### finding C11-e: nesting deeper than 111 -/
+/-! ### nesting deeper than the debug printer's guard (finding C11-e, fixed) -/
 
-/-- `n` dicts around `v` -/
-def nest : Nat → Val → Val
-  | 0, v => v
-  | n + 1, v => .dict .n0 [(['a'], nest n v)]
+-- `nest n v` = `n` dicts around `v` (`Proofs/JsonPairs.lean`, with `wf_nest`, `depth_nest`, `pairOrder_nest`)
 
-/-- **counter-example (C11-e)**: 112 nested dicts around `1` are exported as text that is not
-JSON (`{.......}` is printed at level 111), so the depth hypothesis cannot be dropped -/
-theorem C11_depth_cex :
-    wf (nest 112 (.int 1)) = true ∧ depth (nest 112 (.int 1)) = 112 ∧
-    jsonDecode (toJson { compress := true } (nest 112 (.int 1))) = Option.none := by
-  decide +kernel
+/-- **the guard of the debug printer does not reach the JSON export**: `n` nested dicts load back,
+for every `n` (before fix C11-e the items of level 111 were printed as `{.......}`, so 112
+nested dicts did not load) -/
+theorem C11_depth_any (o : Opts) (n : Nat) :
+    depth (nest n (.int 1)) = n ∧
+    jsonDecode (toJson o (nest n (.int 1))) = some (erase (dropEmptyIf o (nest n (.int 1)))) := by
+  refine ⟨by simp [depth_nest, depth], ?_⟩
+  rw [C11_roundtrip_ordered o _ (wf_nest _ rfl n), pairOrder_nest]
 
-/-- the unrestricted statement is false: finding C11-e refutes it, so `depth t ≤ 111` in
-`C11_roundtrip_bounded_stmt` is the only difference and it is necessary -/
-theorem C11_roundtrip_stmt_false : ¬ C11_roundtrip_stmt := by
-  intro h
-  obtain ⟨v, hv, _⟩ := h { compress := true } (nest 112 (.int 1)) C11_depth_cex.1
-  rw [C11_depth_cex.2.2] at hv
-  cases hv
-
-/-- at the boundary the round-trip still holds (instance of `C11_roundtrip_partial`) -/
-theorem C11_depth_boundary :
-    jsonDecode (toJson { compress := true } (nest 111 (.int 1))) = some (erase (nest 111 (.int 1))) :=
-  C11_roundtrip_partial { compress := true } (by decide) _ (by decide +kernel) (by decide +kernel)
+/-- the former counter-example of C11-e, now an instance: 112 nested dicts, compressed -/
+example : depth (nest 112 (.int 1)) = 112 ∧
+    jsonDecode (toJson { compress := true } (nest 112 (.int 1))) = some (erase (nest 112 (.int 1))) := by
+  have h := C11_depth_any { compress := true } 112
+  exact ⟨h.1, by rw [h.2]; rfl⟩
+-- the exported text really descends past level 111 (no `{.......}` in it)
+example : toJson { compress := true } (nest 113 (.str [])) =
+    (List.replicate 113 "{\"a\":".toList).flatten ++ ['"', '"'] ++ List.replicate 113 '}' := by decide +kernel
 
 /-! ### the pair layout: why the full statement uses `pyEq` -/
 
@@ -221,7 +205,7 @@ example : jsonDecode (toJson {} tPairs)
     = some (.list .plain [.dict .plain [(['k'], .str ['1']), (['v'], .bool true)],
              .dict .plain [(['k'], .int 3), (['v'], .flt ['1', '.', '5'])],
              .dict .plain [(['v'], .str ['"', '\\'])]]) := by
-  rw [C11_roundtrip_ordered_partial {} tPairs (by decide +kernel) (by decide +kernel)]
+  rw [C11_roundtrip_ordered {} tPairs (by decide +kernel)]
   decide +kernel
 
 /-! ### the constructor side: `n0dict(text)` / `n0list(text)` -/
@@ -254,14 +238,14 @@ theorem C11_load_dispatch (s : Str) :
   ctor_dispatch s
 
 /-- **export, then construct**: `n0dict(x.to_json(…))` / `n0list(x.to_json(…))` rebuild the
-(column-ordered) tree for every option record (`_partial`: depth ≤ 111), with the class tags the
+(column-ordered) tree for every option record and any nesting depth, with the class tags the
 constructors give -/
-theorem C11_export_construct_partial (o : Opts) (c : Cls) :
-    (∀ kvs, wf (.dict c kvs) = true → depth (.dict c kvs) ≤ 111 →
+theorem C11_export_construct (o : Opts) (c : Cls) :
+    (∀ kvs, wf (.dict c kvs) = true →
       n0dictOfText (toJson o (.dict c kvs)) = .ok (tagN0 (erase (dropEmptyIf o (pairOrder o (.dict c kvs)))))) ∧
-    (∀ xs, wf (.list c xs) = true → depth (.list c xs) ≤ 111 →
+    (∀ xs, wf (.list c xs) = true →
       n0listOfText (toJson o (.list c xs)) = .ok (tagTop (erase (dropEmptyIf o (pairOrder o (.list c xs)))))) :=
-  ⟨fun kvs hw hd => n0dictOfText_toJson o c kvs hw hd, fun xs hw hd => n0listOfText_toJson o c xs hw hd⟩
+  ⟨fun kvs hw => n0dictOfText_toJson o c kvs hw, fun xs hw => n0listOfText_toJson o c xs hw⟩
 
 -- non-vacuity: blanks that `strip()` removes but JSON does not accept, a repeated key, nested
 -- objects and arrays; an invalid text; the dispatch
@@ -276,7 +260,7 @@ example : n0dictOfText (toJson {} (.dict .plain [(['r'], tPairs)]))
     = .ok (.dict .n0 [(['r'], .list .plain [.dict .n0 [(['k'], .str ['1']), (['v'], .bool true)],
              .dict .n0 [(['k'], .int 3), (['v'], .flt ['1', '.', '5'])],
              .dict .n0 [(['v'], .str ['"', '\\'])]])]) := by
-  rw [(C11_export_construct_partial {} .plain).1 _ (by decide +kernel) (by decide +kernel)]
+  rw [(C11_export_construct {} .plain).1 _ (by decide +kernel)]
   decide +kernel
 
 /-! ### non-vacuity -/
@@ -290,7 +274,7 @@ def tMixed : Val :=
                                 .dict .plain [(['a'], .bool false)]]),
              (['g'], .list .plain [.int 1, .dict .n0 [(['q'], .list .n0 [.dict .n0 [(['x'], .str [])]])], .list .n0 []])]
 
-example : wf tMixed = true ∧ depth tMixed ≤ 111 := by decide +kernel
+example : wf tMixed = true ∧ depth tMixed = 5 := by decide +kernel
 example : Opts.pairsOn { indent := 2, skipEmpty := true } = true := by decide
 -- the pair layout really is used, and re-lists nothing here (first-appearance order = record order)
 example : pairOrder { indent := 2, skipEmpty := true } tMixed = tMixed := by decide +kernel
@@ -300,13 +284,13 @@ example : jsonDecode (toJson { indent := 2, skipEmpty := true } tMixed)
                                 .dict .plain [(['b', '"'], .str ['\n', '"']), (['a'], .flt ['2', '.', '5'])],
                                 .dict .plain [(['a'], .bool false)]]),
              (['g'], .list .plain [.int 1, .dict .plain [(['q'], .list .plain [.dict .plain [(['x'], .str [])]])]])]) := by
-  rw [C11_roundtrip_colorder_partial _ tMixed (by decide +kernel) (by decide +kernel) (by decide +kernel)]
+  rw [C11_roundtrip_colorder _ tMixed (by decide +kernel) (by decide +kernel)]
   decide +kernel
 -- the text of the instance contains a padded record with an absent first column
 example : pretty { indent := 2 } 0 (.list .n0 [.dict .n0 [(['k'], .int 1), (['v'], .int 22)], .dict .n0 [(['v'], .int 3)]])
     = "[\n  { \"k\": 1, \"v\": 22 },\n  {         \"v\": 3  }\n]".toList := by decide +kernel
-example : ∃ o t, wf t = true ∧ depth t ≤ 111 ∧ o.pairsOn = true ∧ pairOrder o t ≠ t :=
-  ⟨{}, tPairs, by decide +kernel, by decide +kernel, by decide, by decide +kernel⟩
+example : ∃ o t, wf t = true ∧ o.pairsOn = true ∧ pairOrder o t ≠ t :=
+  ⟨{}, tPairs, by decide +kernel, by decide, by decide +kernel⟩
 example : isPairScalar (.str ['a']) = true ∧ isPairScalar .none = false ∧ isPairScalar (.list .n0 []) = false := by decide
 
 def tDemo : Val :=
@@ -314,14 +298,14 @@ def tDemo : Val :=
                                      .none, .bool false, .list .plain [], .dict .plain [(['x'], .dict .n0 [])]]),
              (['e'], .dict .plain []), ([], .str [])]
 
-example : wf tDemo = true ∧ depth tDemo ≤ 111 := by decide +kernel
+example : wf tDemo = true ∧ depth tDemo = 4 := by decide +kernel
 example : Opts.pairsOn { indent := 2, pairs := false, skipEmpty := true } = false := by decide
--- the hypotheses of `C11_roundtrip_partial` are met and the conclusion is a non-trivial value
+-- the hypotheses of `C11_roundtrip_pairs_off` are met and the conclusion is a non-trivial value
 example : jsonDecode (toJson { indent := 2, pairs := false, skipEmpty := true } tDemo)
     = some (.dict .plain [(['a', '"'], .list .plain [.str ['\\', '\n', '"', 'é', Char.ofNat 1], .int (-12),
         .flt ['1', 'e', '-', '0', '7'], .none, .bool false])
       , ([], .str [])]) := by
-  rw [C11_roundtrip_partial _ (by decide) tDemo (by decide +kernel) (by decide +kernel)]
+  rw [C11_roundtrip_pairs_off _ (by decide) tDemo (by decide +kernel)]
   decide +kernel
 example : Ren (.list .n0 [.int 1, .str ['a']]) "[ 1 ,\n \"a\" ]".toList := by
   simp only [Ren, RenL, RenTail]
